@@ -2,11 +2,13 @@ package main
 
 import (
 	"bytes"
+	"context"
 	"fmt"
 	"os"
 	"os/exec"
 	"path/filepath"
 	"sync/atomic"
+	"time"
 )
 
 // C19: cim2bin and cim2cas wrap any image in a correct MSX container, body
@@ -109,7 +111,10 @@ func c19Run(dir string, bin string, cs *c19Case) []string {
 	if cs.Off >= 0 {
 		args = append(args, "-off", fmt.Sprint(cs.Off))
 	}
-	cmd := exec.Command(bin, args...)
+	// the tools finish in milliseconds; two minutes only guards the check against a tool that never exits
+	ctx, cancel := context.WithTimeout(context.Background(), 2*time.Minute)
+	defer cancel()
+	cmd := exec.CommandContext(ctx, bin, args...)
 	cmd.Dir = dir
 	var errb bytes.Buffer
 	cmd.Stderr = &errb
